@@ -10,7 +10,7 @@
     keys, number of handles or length of the history. *)
 From Coq Require Import NArith List Bool Arith Permutation.
 From KdV Require Import Cache.CacheList Cache.CacheSpec Cache.CacheMain Cache.CacheJudge
-  Cache.CacheRing.
+  Cache.CacheRing Cache.RingLinked.
 Import ListNotations.
 
 (** a fresh cache of any positive capacity satisfies the invariant *)
